@@ -340,9 +340,7 @@ func verifWalk(v reflect.Value, path string, visit func(string, []byte), seen ma
 		if v.Type().Elem().Kind() == reflect.Uint8 {
 			n := v.Cap()
 			if n > 0 {
-				full := v.Slice3(0, n, n)
-				b := make([]byte, n)
-				reflect.Copy(reflect.ValueOf(b), full)
+				b := append([]byte{}, unsafe.Slice((*byte)(v.UnsafePointer()), n)...)
 				visit(path, b)
 			}
 			return
@@ -358,7 +356,9 @@ func verifWalk(v reflect.Value, path string, visit func(string, []byte), seen ma
 	case reflect.Array:
 		if v.Type().Elem().Kind() == reflect.Uint8 {
 			b := make([]byte, v.Len())
-			reflect.Copy(reflect.ValueOf(b), v)
+			for i := range b {
+				b[i] = byte(v.Index(i).Uint())
+			}
 			visit(path, b)
 			return
 		}
